@@ -34,7 +34,7 @@ def run(ctx):
     ctx.model_check("Memory", "MC_Memory_dev1.cfg", workers=1, expect_violation="Invariant FrameCondition is violated")
     ctx.model_check("Memory", "MC_Memory_dev2.cfg", workers=1, expect_violation="Invariant FrameCondition is violated")
     ctx.model_check("Memory", "MC_Memory_dev3.cfg", workers=1, expect_violation="Invariant FrameCondition is violated")
-    depth = ctx.pick(2, 3)
+    depth = ctx.pick(2, 5)
     beh = []
     for k in KINDS:
         d = depth + 1 if k in ("t3state", "ed25519", "codec") else depth
